@@ -233,7 +233,9 @@ def _cst_for_new_shared_value_variables(
     pyval_to_cst: PyValToCstFunc) -> List[cst.CSTNode]:
   """Returns a list of `CSTNode`s for creating new shared value variables."""
   statements = []
-  for value, name in sorted(zip(values, names), key=lambda item: item[1]):
+  # `values` (diff.new_shared_values) lists a shared value after the shared
+  # values it refers to, so this order defines every variable before its use.
+  for value, name in zip(values, names):
     statements.append(
         cst.Assign(
             targets=[cst.AssignTarget(target=cst.Name(name))],
